@@ -5,6 +5,7 @@ import (
 	"encoding/json"
 	"fmt"
 	"strings"
+	"time"
 
 	"github.com/hashicorp/go-multierror"
 	admv1 "k8s.io/api/admissionregistration/v1"
@@ -42,7 +43,7 @@ type c10Loaded struct {
 	cfg *config.HookConfig
 }
 
-func c10Load(data []byte) (res c10Loaded) {
+func c10LoadInline(data []byte) (res c10Loaded) {
 	defer func() {
 		if p := recover(); p != nil {
 			res = c10Loaded{out: "panic", msg: firstLine(fmt.Sprint(p)) + " @ " + panicSite()}
@@ -53,6 +54,19 @@ func c10Load(data []byte) (res c10Loaded) {
 		return c10Loaded{out: "err", msg: firstLine(err.Error())}
 	}
 	return c10Loaded{out: "ok", cfg: cfg}
+}
+
+// c10Load runs the real loader under recover and under a watchdog: a load that does not return within
+// 10 s is the observation `hang` (its goroutine cannot be stopped and keeps spinning until the run ends).
+func c10Load(data []byte) c10Loaded {
+	ch := make(chan c10Loaded, 1)
+	go func() { ch <- c10LoadInline(data) }()
+	select {
+	case r := <-ch:
+		return r
+	case <-time.After(10 * time.Second):
+		return c10Loaded{out: "hang", msg: "LoadAndValidate did not return within 10 s"}
+	}
 }
 
 type c10Eff struct {
@@ -171,8 +185,8 @@ func c10RunDoc(c *Case, d c10Doc, policy string) string {
 	c.Op("convert", ly.out)
 	c.Oracle("nopanic out=" + ly.out)
 	c.Oracle("nopanic out=" + lj.out)
-	if ly.out == "panic" || lj.out == "panic" {
-		c.Op("panic-bytes "+hex.EncodeToString(y), "panic: "+ly.msg+lj.msg)
+	if (ly.out != "ok" && ly.out != "err") || (lj.out != "ok" && lj.out != "err") {
+		c.Op("panic-bytes "+hex.EncodeToString(y), ly.out+"/"+lj.out+": "+ly.msg+lj.msg)
 	}
 	c.Oracle(fmt.Sprintf("same yaml=%s json=%s", loadedDigest(ly), loadedDigest(lj)))
 	if ly.out != "ok" {
@@ -510,7 +524,7 @@ func c10ApplyTyped(rng *Rng, d c10Doc, fault string) c10Doc {
 	switch fault {
 	case "bad-crontab":
 		i := rng.Intn(len(d.Scheds))
-		d.Scheds[i].Crontab = PickOne(rng, []string{"61 * * * *", "not a cron", "* * *", "* * * * * * *"})
+		d.Scheds[i].Crontab = PickOne(rng, []string{"61 * * * *", "not a cron", "* * *", "* * * * * * *", "*/0 * * * *", "1-5/00 * * * *", "", "@reboot", "1-0 * * * *"})
 	case "unknown-include":
 		switch k := rng.Intn(5); {
 		case k == 0 && len(d.Kubes) > 0:
@@ -704,8 +718,67 @@ func c10Malformed(rng *Rng, base []byte) []byte {
 	}
 }
 
+// c10FuzzValues replaces scalars of a schema-valid document by odd values of the same JSON type: the code
+// behind the schema (typed decoding, parsers, kubernetes validation, conversion) sees them. TESTING.
+var c10OddStrings = map[string][]string{
+	"crontab": {"*/0 * * * *", "0-59/0 * * * * *", "1-0 * * * *", "@every", "@every -1s", "@every 0s", "@every 1x", "? ? ? ? ?", "*/99999999999999999999 * * * *",
+		"TZ=Nowhere * * * * *", "TZ=UTC", "1,,2 * * * *", "* * * JAN MON", "*/+0 * * * *", "*/-0 * * * *", "*/ * * * *", "/ * * * *", "*/1/2 * * * *", "1-2-3 * * * *", "@", "@@", " ", "\t* * * * *", "* * * * * *  ", "⏰ * * * *"},
+	"executionMinInterval": {"", "abc", "1h1", "-5s", "9223372036854775807ns", "9223372036854775808ns", "1e3s", ".5s", "5", "1.5h", "+3s", "3 s", "١s"},
+	"apiVersion":           {"/", "a/b/c", "/v1", "v1/", " ", "apps/v1 ", "a//b", "%", "\u0000"},
+	"key":                  {"", " ", "a b", "a/b/c", "/", "a/", "/a", strings.Repeat("k", 70), "k8s.io/" + strings.Repeat("n", 64), "-a", "a-", "A_b.c", "é"},
+	"operator":             {"In", "NotIn", "Exists", "DoesNotExist"},
+	"field":                {"", "metadata.name", "metadata.namespace", "a=b", "a,b", "a!=b", " ", "=", "\\"},
+	"value":                {"", "a,b", "a=b", "\\", "\\,", " ", strings.Repeat("v", 300)},
+	"name":                 {"", " ", "kubernetes", "schedule", "onStartup", "a b", "a\nb", "é", strings.Repeat("n", 300), "a.b.c", "A.b.c", "a..b.c", "-a.b.c", "a.b.c.", "*.b.c", "1.2.3"},
+	"crdName":              {"", "a", "a.b", " ", "/"},
+	"fromVersion":          {"", "v1", "a/v1", "//"},
+	"kind":                 {"", " ", "pod", "Pod/status", "*"},
+	"jqFilter":             {"", ".", "..", "|", "[", ".a | error", "input", "$__loc__", "\\("},
+	"resynchronizationPeriod": {"", "abc", "-1s"},
+	"expression":           {"", "(", "true"},
+}
+
+func c10Odd(rng *Rng, key string, v any) any {
+	switch x := v.(type) {
+	case string:
+		if pool, ok := c10OddStrings[key]; ok {
+			return PickOne(rng, pool)
+		}
+		if key == "queue" || key == "group" || key == "toVersion" {
+			return PickOne(rng, c10OddStrings["name"])
+		}
+		return x
+	case float64:
+		return PickOne(rng, []any{0, -1, 1, 31, 2147483647, 2147483648, -2147483649, 9007199254740993.0, 1e19, 1e-9, 1.0e2})
+	}
+	return v
+}
+
+func c10FuzzValues(rng *Rng, v any, key string, pct int) any {
+	switch x := v.(type) {
+	case map[string]any:
+		for k, c := range x {
+			x[k] = c10FuzzValues(rng, c, k, pct)
+		}
+		return x
+	case []any:
+		for i, c := range x {
+			x[i] = c10FuzzValues(rng, c, key, pct)
+		}
+		if rng.Chance(3) && len(x) > 0 {
+			x = append(x, x[0]) // repeat an item
+		}
+		return x
+	case string, float64:
+		if key != "configVersion" && rng.Chance(pct) {
+			return c10Odd(rng, key, v)
+		}
+	}
+	return v
+}
+
 func runC10(r *Run) {
-	r.Rule = "valid stream: grammar-directed generator of typed v1 documents (0-5 kubernetes bindings with every option: name/default, apiVersion, executeHookOnEvent / watchEvent incl. [], the three synchronization/memory flags absent/true/false, name/label/field/namespace selectors, jqFilter, allowFailure, includeSnapshotsFrom, queue, group; 0-3 schedules; validating / mutating / conversion bindings; settings; onStartup; 12% v0 documents), each rendered as YAML and as JSON and loaded by the real HookConfig.LoadAndValidate; the effective config is compared item by item with the model (correspondence) and judged by the specification (oracles: counts, documented defaults, group union, unambiguous effective includes, YAML = JSON, no panic). fault stream: every single-fault mutation (14 typed-level kinds also judged by the model, 21 schema-level kinds) of a valid document must be rejected, in both renderings. malformed stream (TESTING, not a theorem: third-party decoders and the OpenAPI validator are outside the model): random and mutated byte strings under recover — never a panic, always error-or-config. A case is non-trivial when it is a valid document with >= 2 binding kinds and a group or include, or a fault case, or a malformed case whose bytes decode to a map; distinct = distinct op-line sequences."
+	r.Rule = "valid stream: grammar-directed generator of typed v1 documents (0-5 kubernetes bindings with every option: name/default, apiVersion, executeHookOnEvent / watchEvent incl. [], the three synchronization/memory flags absent/true/false, name/label/field/namespace selectors, jqFilter, allowFailure, includeSnapshotsFrom, queue, group; 0-3 schedules; validating / mutating / conversion bindings; settings; onStartup; 12% v0 documents), each rendered as YAML and as JSON and loaded by the real HookConfig.LoadAndValidate; the effective config is compared item by item with the model (correspondence) and judged by the specification (oracles: counts, documented defaults, group union, unambiguous effective includes, YAML = JSON, no panic). fault stream: every single-fault mutation (14 typed-level kinds also judged by the model, 21 schema-level kinds) of a valid document must be rejected, in both renderings. value-fuzz stream (TESTING): schema-valid documents whose scalars are replaced by odd values of the same type (crontabs with zero / huge / negative steps, durations, label keys, field-selector values, names, int32 overflow ...) — no panic, no hang, YAML = JSON. malformed stream (TESTING, not a theorem: third-party decoders and the OpenAPI validator are outside the model): random and mutated byte strings under recover — never a panic, always error-or-config. A case is non-trivial when it is a valid document with >= 2 binding kinds and a group or include, or a fault case, or a malformed case whose bytes decode to a map; distinct = distinct op-line sequences."
 	// warm the schema cache: it is an unsynchronised package-level map (the operator loads hooks sequentially)
 	config.GetSchema("v0")
 	config.GetSchema("v1")
@@ -739,6 +812,18 @@ func runC10(r *Run) {
 			Validating: []c10Adm{{Name: "v.example.com", Group: "g", Rules: genRules(rng)}},
 			Convs:      []c10Conv{{Name: "conv", CrdName: "a.b.c", Rules: [][2]string{{"v1", "v2"}}, Includes: []string{"kubernetes"}}}}
 		c10RunDoc(c, d, policy)
+	})
+	r.One(3, func(c *Case, rng *Rng) {
+		c.Desc = "corpus: crontab with a zero step (the cron library loops forever on it)"
+		c.Nontrivial = true
+		for _, ct := range []string{"*/0 * * * *", "0-59/00 * * * * *"} {
+			d := c10Doc{Scheds: []c10Sched{{Crontab: ct, Name: "z"}}}
+			v := c10RunDoc(c, d, policy)
+			c.Oracle("reject fault=bad-crontab-zero-step verdict=" + v)
+			if v == "hang" {
+				break // one spinning goroutine is enough
+			}
+		}
 	})
 	nValid := r.N(2500, 30000)
 	r.Cases(10, nValid, 0, func(c *Case, rng *Rng) {
@@ -799,10 +884,31 @@ func runC10(r *Run) {
 			l := c10Load(enc.b)
 			c.Oracle("nopanic out=" + l.out)
 			c.Oracle(fmt.Sprintf("reject fault=%s-%s verdict=%s", fault, enc.n, l.out))
-			if l.out == "panic" {
-				c.Op("panic-bytes "+hex.EncodeToString(enc.b), "panic: "+l.msg)
+			if l.out != "ok" && l.out != "err" {
+				c.Op("panic-bytes "+hex.EncodeToString(enc.b), l.out+": "+l.msg)
 			}
 		}
+	})
+	nFuzz := r.N(2500, 40000)
+	r.Cases(300000, nFuzz, 0, func(c *Case, rng *Rng) {
+		d := genDoc(rng, c10GenOpts{needKube: rng.Bool(), needSched: rng.Bool(), needVal: rng.Chance(30)})
+		b, _ := json.Marshal(d.toMap())
+		var m any
+		_ = json.Unmarshal(b, &m)
+		m = c10FuzzValues(rng, m, "", PickOne(rng, []int{4, 10, 25}))
+		y, j := c10Bytes(m.(map[string]any))
+		ly, lj := c10Load(y), c10Load(j)
+		c.Oracle("nopanic out=" + ly.out)
+		c.Oracle("nopanic out=" + lj.out)
+		c.Oracle(fmt.Sprintf("same yaml=%s json=%s", loadedDigest(ly), loadedDigest(lj)))
+		c.Note("valuefuzz:" + ly.out)
+		c.Desc = "schema-valid document with odd scalar values (testing)"
+		c.Nontrivial = true
+		if (ly.out != "ok" && ly.out != "err") || (lj.out != "ok" && lj.out != "err") {
+			c.Desc = strings.ToUpper(ly.out+"/"+lj.out) + " on bytes " + hex.EncodeToString(j)
+			c.Op("panic-bytes "+hex.EncodeToString(j), ly.out+"/"+lj.out+": "+ly.msg+lj.msg)
+		}
+		c.Op("bytes "+digest(string(j)), "bad-op")
 	})
 	nMal := r.N(6000, 120000)
 	r.Cases(400000, nMal, 0, func(c *Case, rng *Rng) {
@@ -823,9 +929,9 @@ func runC10(r *Run) {
 		c.Desc = "malformed bytes (testing)"
 		var probe map[string]any
 		c.Nontrivial = sigsyaml.Unmarshal(b, &probe) == nil && len(probe) > 0
-		if l.out == "panic" {
-			c.Desc = "PANIC on bytes " + hex.EncodeToString(b)
-			c.Op("panic-bytes "+hex.EncodeToString(b), "panic: "+l.msg)
+		if l.out != "ok" && l.out != "err" {
+			c.Desc = strings.ToUpper(l.out) + " on bytes " + hex.EncodeToString(b)
+			c.Op("panic-bytes "+hex.EncodeToString(b), l.out+": "+l.msg)
 		}
 		// distinct cases are counted by their op lines: carry a digest of the input
 		c.Op("bytes "+digest(string(b)), "bad-op")
